@@ -12,6 +12,7 @@ An oracle provides
 """
 from __future__ import print_function
 
+import hashlib
 import json
 import os
 import random
@@ -151,7 +152,9 @@ class Run(object):
             self.samples.append(item)
 
     def note_nontrivial(self, token):
-        self.nontrivial.add(token)
+        # a 16-byte digest of the token: the set only counts distinct cases, and millions of 64 KB inputs must
+        # not be kept in memory
+        self.nontrivial.add(hashlib.blake2b(repr(token).encode('utf-8', 'replace'), digest_size=16).digest())
 
     def finding(self, key, message, case):
         entry = self.kf.lookup(self.prop, key)
@@ -159,6 +162,9 @@ class Run(object):
             if key not in self.known_hits:
                 self.known_hits[key] = (entry, case, message)
         else:
+            if len(self.violations) >= 500 and isinstance(case, dict):     # keep the count, not the payload
+                case = dict(case, data=str(case.get('data', ''))[:64] + '...') if 'data' in case else case
+                message = message[:300]
             self.violations.append((key, message, case))
 
     def wall(self):
@@ -198,7 +204,13 @@ def correspond(run, oracle, cases, compare=None):
             if not same:
                 bad.append((case, i, m, r))
                 break
-    run.disagreements.extend(bad)
+    for item in bad:
+        if len(run.disagreements) < 300:
+            run.disagreements.append(item)
+        else:               # keep the count, not the payload
+            case = item[0]
+            slim = dict(case, data=str(case.get('data', ''))[:64] + '...') if isinstance(case, dict) else case
+            run.disagreements.append((slim, item[1], str(item[2])[:200], str(item[3])[:200]))
     return bad
 
 
